@@ -2020,6 +2020,246 @@ def finish_sessions(chk, cases, obs_list, reps):
 
 
 # ------------------------------------------------------------------------------------------------
+# wave 9: the SHAPE of the input handed to probs / probs_svd / evolve of the polarisation layer
+# (`PolarizationSimulator._prepare_input` before the conversion) against `dispatch` / `shapeEnv`
+# ------------------------------------------------------------------------------------------------
+SHAPE_KINDS = ["bs", "svd-single", "sv1", "sv2", "svd-superposition", "svd-two", "svd-empty", "svd-mixed",
+               "bs", "svd-single"]
+LAYER_REFUSAL = "Polarization simulator can only process BasicState inputs"
+
+
+def gen_distinct_inputs(rng, m, nmax, k, malformed_first=False):
+    """k polarised Fock states on m modes with pairwise different photon-count patterns (distinct native states)"""
+    out, seen = [], set()
+    for _ in range(400):
+        if len(out) == k:
+            break
+        modes = gen_input(rng, m, nmax, malformed=(malformed_first and not out))
+        key = tuple(mode_count(md) for md in modes)
+        if key in seen:
+            continue
+        seen.add(key)
+        out.append(modes)
+    return out
+
+
+def gen_shape_case(chk, rng, idx, max_m, max_depth, max_ops, nmax):
+    m = rng.choice([2, 2, 3][:max(1, max_m - 1)] + [min(2, max_m)])
+    tree = force_polarised(rng, gen_tree(rng, m, rng.randint(0, max_depth), rng.randint(1, max_ops)))
+    sk = SHAPE_KINDS[idx % len(SHAPE_KINDS)]
+    sizes = {"bs": [1], "svd-single": [1], "sv1": [1], "sv2": [2], "svd-superposition": [2], "svd-two": [1, 1],
+             "svd-empty": [], "svd-mixed": [2, 1]}[sk]
+    flat = gen_distinct_inputs(rng, m, nmax, sum(sizes),
+                               malformed_first=(idx % 20 in (2, 3, 4, 7)) or rng.random() < 0.1)
+    if len(flat) < sum(sizes):
+        sk, sizes = "bs", [1]
+        flat = gen_distinct_inputs(rng, m, nmax, 1)
+    if sk in ("bs", "svd-single") and (idx % 20 in (11, 18) or rng.random() < 0.05):
+        flat = [gen_input(rng, m, nmax, vacuum=True)]      # the vacuum is a BasicState like any other
+    comps, at = [], 0
+    for s in sizes:
+        comps.append(flat[at:at + s])
+        at += s
+    if sk.startswith("svd"):
+        entry = "svd" if rng.random() < 0.8 else rng.choice(["probs", "evolve"])
+    else:
+        entry = rng.choice(["probs", "evolve"]) if rng.random() < 0.85 else "svd"
+    if idx % 20 == 8 and sk == "bs":
+        entry = "svd"                      # accepted by the layer, refused by the wrapped simulator's entry point
+    elif idx % 20 == 9 and sk == "svd-single":
+        entry = rng.choice(["probs", "evolve"])
+    elif idx % 20 == 11 and sk == "svd-single":
+        entry = "svd"
+    elif idx % 20 == 0 and sk == "bs":
+        entry = "evolve"
+    return {"kind": "shape", "tree": tree, "backend": rng.choice(["SLOS", "Naive"]), "shape": sk, "comps": comps,
+            "entry": entry, "pre": rng.random() < 0.5, "base": gen_input(rng, m, nmax)}
+
+
+def build_shape(case):
+    import perceval as pcvl
+    from perceval.utils import BasicState, StateVector
+    sk = case["shape"]
+    states = [[BasicState(state_text(md)) for md in sv] for sv in case["comps"]]
+    if sk == "bs":
+        return states[0][0], states
+    svs = []
+    for comp in states:
+        sv = StateVector(comp[0])
+        for b in comp[1:]:
+            sv = sv + StateVector(b)
+        svs.append(sv)
+    if sk in ("sv1", "sv2"):
+        return svs[0], states
+    svd = pcvl.SVDistribution()
+    for sv in svs:
+        svd[sv] = 1.0 / len(svs)
+    return svd, states
+
+
+def observe_shape(case):
+    from perceval.utils import BasicState, convert_polarized_state
+    from perceval.simulators import SimulatorFactory
+    c, lj = build(case["tree"])
+    sim = SimulatorFactory.build(c, case["backend"])
+    bs0 = BasicState(state_text(case["base"]))
+    out = {"lean": lj, "steps": []}
+    if case["pre"]:
+        out["steps"].append(observe_query(sim, "factory", "probs", bs0))
+    obj, states = build_shape(case)
+    o = {"comp_angles": [[read_back(b) for b in sv] for sv in states]}
+    if states and states[0]:
+        cand = states[0][0]
+        o.update({"angles": read_back(cand), "counts": list(cand)})
+        try:
+            sp_in, prep = convert_polarized_state(cand)
+            o["conv"] = {"input": list(sp_in), "prep": None if prep is None else np.array(prep, dtype=complex)}
+        except Exception as e:
+            o["conv"] = exc(e)
+    try:
+        entry = case["entry"]
+        if entry == "svd":
+            res = sim.probs_svd(obj)
+            dist = {tuple(k): float(v) for k, v in res["results"].items()}
+            o["perf"] = (float(res["physical_perf"]), float(res["logical_perf"]))
+        elif entry == "evolve":
+            dist = {}
+            sv, bad = read_sv(sim.evolve(obj))
+            for key, amp in sv:
+                tk = tuple(a + b for a, b in key)
+                dist[tk] = dist.get(tk, 0.0) + abs(amp) ** 2
+        else:
+            dist = {tuple(k): float(v) for k, v in sim.probs(obj).items()}
+        o["dist"] = dist
+    except Exception as e:
+        o.update(exc(e))
+    out["steps"].append(o)
+    out["steps"].append(observe_query(sim, "factory", "probs", bs0))
+    for st in out["steps"]:
+        st["lean"] = lj
+    return out
+
+
+def shape_req(case, obs):
+    steps = [{"set": obs["lean"]}]
+    shaped = obs["steps"][-2]
+    comps = [[lean_modes(a) for a in sv] for sv in shaped["comp_angles"]]
+    sk = case["shape"]
+    item = {"bs": comps[0][0]} if sk == "bs" else ({"sv": comps[0]} if sk in ("sv1", "sv2") else {"svd": comps})
+    base = {"bs": lean_modes(obs["steps"][-1]["angles"])}
+    if case["pre"]:
+        steps.append(base)
+    steps += [item, base]
+    return {"op": "shaped", "fixed": True, "steps": steps}
+
+
+def judge_shape(chk, case, obs=None, rep=None, count=False):
+    """-> None | (kind, signature, what, replay)"""
+    if obs is None:
+        obs = observe_shape(case)
+    if rep is None:
+        rep = chk.lean.ask(shape_req(case, obs))
+    replay = {"case": case}
+    if "err" in rep or "outs" not in rep:
+        return ("broken", "model-rejects", f"driver refused a shaped session: {rep.get('err')}", replay)
+    outs, wraps = rep["outs"][1:], rep["wrap"][1:]
+    if len(outs) != len(obs["steps"]):
+        return ("broken", "model-vs-code", "driver answered another number of steps", replay)
+    sk, entry = case["shape"], case["entry"]
+    base_case = {"kind": "probs", "tree": case["tree"], "modes": case["base"], "path": "factory",
+                 "backend": case["backend"]}
+    k_shaped = len(outs) - 2
+    what_in = f"{entry}({sk} of {[[state_text(md) for md in sv] for sv in case['comps']]})"
+    for k, (o, r, w) in enumerate(zip(obs["steps"], outs, wraps)):
+        if k != k_shaped:
+            res = judge_probs(chk, base_case, o, r)
+            if res is not None:
+                after = k > k_shaped
+                return (res[0], ("shape-request-changes-object:" if after else "") + res[1],
+                        (f"on one simulator, probs({state_text(case['base'])}) after {what_in}: " if after else "")
+                        + res[2], replay)
+            if k > k_shaped and count:
+                chk.branch("shape-query-after-shaped-request")
+            continue
+        refused_by_layer = o.get("err") == "NotImplementedError" and LAYER_REFUSAL in o.get("msg", "")
+        if isinstance(r, dict) and r.get("err") == "NotImplementedError":
+            # the model refuses the SHAPE (before any conversion)
+            if refused_by_layer:
+                if count:
+                    chk.branch({"sv1": "shape-sv-rejected", "sv2": "shape-sv-rejected",
+                                "svd-superposition": "shape-svd-superposition-rejected",
+                                "svd-two": "shape-svd-several-rejected", "svd-mixed": "shape-svd-several-rejected",
+                                "svd-empty": "shape-svd-empty-rejected"}[sk])
+                    if isinstance(o.get("conv"), dict) and "err" in o["conv"]:
+                        chk.branch("shape-rejected-before-conversion")
+                continue
+            if "err" not in o:
+                # the statement, directly: a polarised simulation is defined for ONE polarised Fock state; an answer to
+                # a superposition / a mixture can only have been computed from one of its components
+                return ("violation", "superposition-input-answered",
+                        f"{what_in} returned a result; the layer converts one BasicState only "
+                        "(documented refusal: NotImplementedError)", replay)
+            return ("broken", "shape-error-class", f"{what_in} raised {o['err']} ({o.get('msg')}), the layer's "
+                    "documented refusal is NotImplementedError", replay)
+        if sk not in ("bs", "svd-single"):
+            return ("broken", "model-accepts-shape", f"the model accepts {what_in}", replay)
+        cand_case = dict(base_case, modes=case["comps"][0][0])
+        if w is not None and w != (entry == "svd"):
+            # accepted by the layer, handed to an entry point of the wrapped simulator that takes the other form:
+            # the wrapped simulator's own type error (class not specified)
+            if "err" in o and not refused_by_layer:
+                if count:
+                    chk.branch("shape-entry-mismatch")
+                continue
+            if refused_by_layer:
+                return ("violation", "single-state-input-refused", f"{what_in} refused by the layer", replay)
+            return ("broken", "mismatched-entry-answered", f"{what_in} returned a result", replay)
+        if refused_by_layer:
+            return ("violation", "single-state-input-refused",
+                    f"{what_in} raised NotImplementedError; a one-state distribution / a BasicState is the "
+                    "documented input of the polarised simulation", replay)
+        res = judge_probs(chk, cand_case, o, r)
+        if res is not None:
+            return (res[0], res[1], f"{what_in}: " + res[2], replay)
+        if count:
+            chk.branch("shape-bs" if sk == "bs" else "shape-svd-single")
+            if sk == "svd-single" and sum(o["counts"]) == 0:
+                chk.branch("shape-svd-single-vacuum")
+            if entry == "evolve":
+                chk.branch("shape-evolve")
+    return None
+
+
+def run_shapes(chk, rng, n, max_m, max_depth, max_ops, nmax):
+    cases = [gen_shape_case(chk, rng, i, max_m, max_depth, max_ops, nmax) for i in range(n)]
+    handle_shapes(chk, cases)
+
+
+def handle_shapes(chk, cases):
+    obs = [observe_shape(c) for c in cases]
+    reps = chk.lean.ask_many([shape_req(c, o) for c, o in zip(cases, obs)])
+    for case, o, rep in zip(cases, obs, reps):
+        chk.count("kind", "shape")
+        chk.count("shape", case["shape"] + ":" + case["entry"])
+        chk.case(("Sh", case["shape"], case["entry"], case["pre"], tree_sig(case["tree"])),
+                 nontrivial=case["shape"] != "bs",
+                 sample={"kind": "shape", "shape": case["shape"], "entry": case["entry"]})
+        res = judge_shape(chk, case, o, rep, count=True)
+        if res is None:
+            continue
+        small = case
+        if case["pre"] and not case.get("corpus"):
+            try:
+                cand = dict(case, pre=False)
+                again = judge_shape(chk, cand)
+                if again is not None and again[1] == res[1]:
+                    small, res = cand, again
+            except Exception:
+                small = case
+        chk.fail(res[0], res[1], res[2], {"case": small})
+
+
+# ------------------------------------------------------------------------------------------------
 # label table
 # ------------------------------------------------------------------------------------------------
 STANDARD = {"H": (1, 0), "V": (0, 1), "D": (1, 1), "A": (1, -1), "L": (1, 1j), "R": (1, -1j)}   # D…R: × 1/√2
@@ -2917,7 +3157,11 @@ def run(chk: core.Check):
         "shared-object-two-ranges", "shared-object-same-range", "shared-object-nested", "shared-object-retuned",
         "shared-subcircuit", "shared-subcircuit-merged-two-ranges", "shared-polarising", "shared-ordinary",
         "shared-via-floordiv", "shared-via-matmul", "shared-unitary", "shared-probs", "shared-processor",
-        "shared-evolve", "shared-select", "shared-session", "shared-session-retuned", "shared-session-added-again"]
+        "shared-evolve", "shared-select", "shared-session", "shared-session-retuned", "shared-session-added-again",
+        # wave 9: the shape of the input (BasicState / StateVector / SVDistribution) handed to the layer
+        "shape-bs", "shape-svd-single", "shape-evolve", "shape-sv-rejected", "shape-svd-superposition-rejected",
+        "shape-svd-several-rejected", "shape-svd-empty-rejected", "shape-rejected-before-conversion",
+        "shape-query-after-shaped-request", "shape-entry-mismatch", "shape-svd-single-vacuum"]
     chk.lean = LockedLean(core.LeanDriver("C13"))
     check_labels(chk)
     rng = chk.rng
@@ -2928,7 +3172,8 @@ def run(chk: core.Check):
     nmax = 3
     corpus = load_corpus()
     if corpus:
-        handle_batch(chk, [c for c in corpus if c["kind"] not in ("session", "proc", "leaf")])
+        handle_batch(chk, [c for c in corpus if c["kind"] not in ("session", "proc", "leaf", "shape")])
+        handle_shapes(chk, [c for c in corpus if c["kind"] == "shape"])
         handle_sessions(chk, [c for c in corpus if c["kind"] == "session"])
         handle_procs(chk, [c for c in corpus if c["kind"] == "proc"])
     cases = [gen_case(chk, rng, max_m, max_depth, max_ops, nmax) for _ in range(n)]
@@ -2945,6 +3190,8 @@ def run(chk: core.Check):
     handle_batch(chk, shared_cases)
     handle_sessions(chk, [gen_session(chk, rng, max_m, max_depth, max_ops, nmax, chk.pick(4, 5), shared=True)
                           for _ in range(chk.pick(24, 40))])
+    # wave 9 (generated last): the shape of the input handed to the layer
+    run_shapes(chk, rng, chk.pick(40, 300), max_m, max_depth, max_ops, nmax)
 
 
 def replay(chk, data):
@@ -2961,6 +3208,8 @@ def replay(chk, data):
         handle_sessions(chk, [case])
     elif case["kind"] == "proc":
         handle_procs(chk, [case])
+    elif case["kind"] == "shape":
+        handle_shapes(chk, [case])
     elif case["kind"] == "leaf":
         res = judge_leaf(chk, case)
         if res is not None:
